@@ -82,7 +82,7 @@ def run(tier, seed, selftest=False, replay=None):
         "samples": [sample],
         "evaluations": steps, "distinct_nontrivial": len(plans),
         "rule": "TLC enumerates the save point (generated / after 1st erasure / after 2nd erasure / after overwriting) x every sequence of <= %d "
-                "operations (translate to own language, translate to another language, erase, overwrite, dump-and-load again) and random longer "
+                "operations (translate to own language, translate to another language, erase, overwrite - in place on the loaded copy -, dump-and-load again, load the saved file again) and random longer "
                 "ones; each plan is executed on real programs of all four languages: dump_program / load_program, then every operation on the "
                 "original and on the loaded copy with the same random seed; TLC checks observational equality per operation. "
                 "evaluations = operations compared; distinct = distinct plans" % (2 if tier == "quick" else 3),
